@@ -10,7 +10,7 @@ Theorem c11_dispatch rules r rest : prefix_free rules -> In r rules ->
   match_schc_packet rules (rule_id r ++ rest) = Ok r.
 Proof. exact (match_schc_packet_dispatch rules r rest). Qed.
 (* no id is a prefix (including strings shorter than every id): the rule-ID error *)
-Theorem c11_none rules s : rules <> [] ->
+Theorem c11_none rules s :
   (forall r, In r rules -> is_prefix (rule_id r) s = false) -> match_schc_packet rules s = Exc RuleIDMatchError.
 Proof. exact (match_schc_packet_none rules s). Qed.
 (* whatever the rule set: a returned rule's id is a prefix of the packet and no earlier rule's id is *)
